@@ -499,7 +499,25 @@ def Cmd.subTypes (c : Cmd) : List String :=
 def MStmt.mentions (f : String) : MStmt → Bool
   | .int _ _ _ g | .quad _ _ _ g | .u8 _ g | .bytes _ g | .arr _ g | .sub _ g _ | .setFmt g _ => g == f
   | .assignLen g h _ => g == f || h == f
+  | .zeros _ _ => false
   | _ => true
+
+/-- `layoutM`, except that literal zero bytes in the *data* block (`append(raw, 0x00, 0x00)`: the terminator of a
+    null-terminated string, NegotiateResponse) are passed over: they belong to no field and move no parameter slot.
+    Only `slotRange` reads the layout through this function; `Mirror`, `Conforms` and `Spec.Cifs.encode` keep
+    `layoutM`, for which such a program is outside the straight-line fragment. -/
+def layoutZ : List MStmt → Option (List Slot)
+  | [] => some []
+  | .int b w e f :: r => (layoutZ r).map (.int b w e f :: ·)
+  | .quad b w e f :: r => (layoutZ r).map (.int b w e f :: ·)
+  | .u8 b f :: r => (layoutZ r).map (.u8 b f :: ·)
+  | .bytes b f :: r => (layoutZ r).map (.bytes b f none :: ·)
+  | .arr b f :: r => (layoutZ r).map (.arr b f :: ·)
+  | .sub b f t :: r => (layoutZ r).map (.sub b f t none :: ·)
+  | .setFmt _ _ :: r => layoutZ r
+  | .assignLen _ _ _ :: r => layoutZ r
+  | .zeros .D _ :: r => layoutZ r
+  | _ :: _ => none
 
 /-- offset and width of the first fixed-width slot of field `f` in a block's slot list, provided
     every slot in front of it has a fixed width (`off`: bytes in front of the list) -/
@@ -510,11 +528,12 @@ def slotAt (f : String) : List Slot → Nat → Option (Nat × Nat)
   | _ :: _, _ => none
 
 /-- byte range `[lo, hi)` of a fixed-width parameter field's slot inside the encoded command: defined
-    when the marshal program is straight-line, exactly one statement touches the field, and only
+    when the marshal program is straight-line (literal terminator bytes in the data block apart: `layoutZ`),
+    exactly one statement touches the field, and only
     fixed-width slots precede it in the parameter block (then the offset does not depend on values) -/
 def slotRange (c : Cmd) (f : String) : Option (Nat × Nat) :=
   if f == andxField || (c.marshal.filter (·.mentions f)).length != 1 then none else
-  match layoutM c.marshal with
+  match layoutZ c.marshal with
   | none => none
   | some m =>
     match slotAt f (m.filter (·.blk == .P)) 0 with
@@ -707,7 +726,7 @@ def emittedStmt : MStmt → List String
   | .subHead f _ => [f]
   | .int _ _ _ f | .quad _ _ _ f | .u8 _ f | .bytes _ f | .arr _ f | .sub _ f _ | .forSub _ f _
   | .forInt _ _ _ f => [f]
-  | .setFmt _ _ | .assignLen _ _ _ => []
+  | .setFmt _ _ | .assignLen _ _ _ | .zeros _ _ => []
 def emittedDeep : List MStmt → List String
   | [] => []
   | s :: r => emittedStmt s ++ emittedDeep r
